@@ -187,6 +187,21 @@ func numericSource(rng *Rng, g *Gen) Event {
 		g.bigFloat() // float64-exact values only: the CBE encoder itself rounds other big.Floats (C01 finding)
 		return g.out[len(g.out)-1]
 	default:
+		if rng.P(1, 3) {
+			// integers beyond 64 bits with few significant bits: exactly a float64, some exactly a
+			// float32 (<= 24 significant bits), some not (25..53 bits)
+			top := uint(64 + rng.Intn(60))
+			width := uint([]int{1, 2, 12, 24, 25, 30, 53, 54}[rng.Intn(8)])
+			v := new(big.Int).Lsh(big.NewInt(1), top)
+			if width > 1 {
+				low := new(big.Int).Lsh(big.NewInt(1), top-width+1)
+				v.Add(v, low)
+			}
+			if rng.P(1, 2) {
+				v.Neg(v)
+			}
+			return Event{K: "bi", Big: v}
+		}
 		g.out = g.out[:0]
 		g.bigInt()
 		return g.out[len(g.out)-1]
